@@ -871,6 +871,16 @@ func (rn *runner) unmarshalCase(t *Target, name string, enc []byte, applied []st
 			}
 			Violation(prop, "unmarshal", sig, "generated Unmarshal() and the reference runtime decode the same bytes to different messages", desc, trunc(fmt.Sprint(want), 300), trunc(fmt.Sprint(gd), 300))
 		}
+		// equal after a trip through the runtime's encoder — but a field the schema DEFINES (an extension) that was
+		// merely kept as unknown bytes survives that trip too: the unknown fields held by the decoded message
+		// itself must be the reference's unknown fields, no more and no less
+		if outcome != "disagree" && (rn.prop == "C06" || rn.prop == "C07" || rn.prop == "C08") {
+			if raw, ok := rawUnknown(m); ok && !bytes.Equal(raw, want.GetUnknown()) {
+				outcome = "disagree"
+				Violation(rn.prop, "unmarshal", "unknown-set-differs", "after generated Unmarshal() the message holds, as unknown bytes, something else than the fields the schema does not define (a declared field / extension was left undecoded, or unknown bytes were lost or reordered)",
+					desc, hx(want.GetUnknown()), hx(raw))
+			}
+		}
 		switch rn.prop {
 		case "C07":
 			rn.unknownRoundTrip(t, name, m, want, desc)
@@ -879,6 +889,20 @@ func (rn *runner) unmarshalCase(t *Target, name string, enc []byte, applied []st
 		}
 	}
 	Count("unmarshal", fmt.Sprint(desc), outcome, len(enc), len(enc) > 0)
+}
+
+// rawUnknown returns the unknown-field bytes the message value itself holds (top level).
+func rawUnknown(m interface{}) ([]byte, bool) {
+	if pm, ok := m.(proto.Message); ok {
+		return pm.ProtoReflect().GetUnknown(), true
+	}
+	v := reflect.ValueOf(m)
+	if v.Kind() == reflect.Ptr && !v.IsNil() && v.Elem().Kind() == reflect.Struct {
+		if f := v.Elem().FieldByName("XXX_unrecognized"); f.IsValid() && f.Kind() == reflect.Slice {
+			return f.Bytes(), true
+		}
+	}
+	return nil, false
 }
 
 var reDigits = regexp.MustCompile(`[0-9]+`)
